@@ -7,6 +7,7 @@
 
 //! SQLite serving with Dynamic DNS and journaling support
 
+use std::collections::BTreeMap;
 #[cfg(feature = "__dnssec")]
 use std::fs;
 use std::marker::PhantomData;
@@ -415,6 +416,9 @@ impl<P: RuntimeProvider + Send + Sync> SqliteZoneHandler<P> {
                 .filter(|rrset| !rrset.is_empty())
         };
 
+        // temp<rr.name, rr.type>, the RRsets built from the value dependent prerequisites
+        let mut temp = BTreeMap::<RrKey, Vec<&Record>>::new();
+
         for require in pre_requisites {
             let required_name = LowerName::from(&require.name);
 
@@ -481,15 +485,29 @@ impl<P: RuntimeProvider + Send + Sync> SqliteZoneHandler<P> {
                 class if class == self.in_memory.class() =>
                 // zone     rrset    rr       RRset exists (value dependent)
                 {
-                    if !zone_rrset(&required_name, require.record_type())
-                        .is_some_and(|rrset| rrset.records_without_rrsigs().any(|rr| rr == require))
-                    {
-                        return Err(ResponseCode::NXRRSet);
-                    } else {
-                        continue;
+                    let rrset = temp
+                        .entry(RrKey::new(required_name, require.record_type()))
+                        .or_default();
+                    if !rrset.contains(&require) {
+                        rrset.push(require);
                     }
                 }
                 _ => return Err(ResponseCode::FormErr),
+            }
+        }
+
+        // 3.2.3: each of these RRsets must equal the zone's RRset: same members, no more, no less
+        for (rr_key, rrset) in temp {
+            let Some(existing) = zone_rrset(&rr_key.name, rr_key.record_type) else {
+                return Err(ResponseCode::NXRRSet);
+            };
+
+            if existing.records_count() != rrset.len()
+                || !rrset
+                    .iter()
+                    .all(|require| existing.records_without_rrsigs().any(|rr| rr == *require))
+            {
+                return Err(ResponseCode::NXRRSet);
             }
         }
 
